@@ -114,8 +114,8 @@ Definition run_xstep (v : xenv) (s : xstep) (e : XE) : res XE :=
   | XInsRow => x_insert_row e
   | XDelCol => x_delete_column e
   | XInsCol => x_insert_column e
-  | XScrUp => x_scroll_area_whole true e
-  | XScrDown => x_scroll_area_whole false e
+  | XScrUp => x_scroll_area_ud true e
+  | XScrDown => x_scroll_area_ud false e
   | XScrLeft => lift_edit (api_scroll_area_lr true) e
   | XScrRight => lift_edit (api_scroll_area_lr false) e
   end.
